@@ -124,6 +124,37 @@ Theorem C09_define_own_creator_refuted :
     step_op o s = Internal 126.
 Proof. exists 3, cycle_prefix, cycle_request. vm_compute. repeat split; reflexivity. Qed.
 
+(* Hash results are applied whenever the hashing thread completes (Executor._run_hash_job), not
+   necessarily in the state in which the job was queued (finding D17): the path [102;53] ("f5") is
+   UNCONFIRMED when the job is queued; when the result arrives the node has been detached by the
+   rerun of its creator and taken over as a volatile output.  _HASH_TRANSITIONS has no row. *)
+Definition stale_prefix1 : list op :=
+  [OpDeclareStatic root_key [[112]];
+   OpUpdateHashes CConfirmed [([112], Some 1)];
+   OpDefineStep root_key plan_label [[112]] [] [] [] NPlan;
+   OpDispatch plan_label;
+   OpResetForRerun plan_label;
+   OpDeclareStatic (KStep, plan_label) [[102; 53]]].
+Definition stale_prefix2 : list op :=
+  [OpDefineStep (KStep, plan_label) [65] [] [] [] [] NDefault;
+   OpDispatch [65];
+   OpResetForRerun [65];
+   OpExecEnd plan_label [] CSucceeded [] true false;
+   OpMarkStepPending plan_label;
+   OpDispatch plan_label;
+   OpResetToPending plan_label;
+   OpDispatch plan_label;
+   OpResetForRerun plan_label;
+   OpAmendStep [65] [] [] [] [[102; 53]]].
+Theorem C09_stale_confirmation_internal_refuted :
+  exists cap ops1 ops2 l h,
+    let s1 := run_ops ops1 (init_st cap) in
+    let s2 := run_ops (ops1 ++ ops2) (init_st cap) in
+    protocol_run_b (init_st cap) (ops1 ++ ops2) = true /\
+    fstate_of l s1 = Some FUnconfirmed /\ inv_b s2 = true /\
+    step_op (OpUpdateHashes CConfirmed [(l, h)]) s2 = Internal 119.
+Proof. exists 3, stale_prefix1, stale_prefix2, [102; 53], (Some 7). vm_compute. repeat split; reflexivity. Qed.
+
 (* the hypotheses are satisfiable by non-trivial instances *)
 Example C09_protocol_nonvacuous :
   protocol_run_b (init_st 3) (selfdef_prefix ++ [OpHold [65]; OpRelease [65]]) = true /\
